@@ -103,6 +103,10 @@ func ExtractMPIs(d []byte) ([]byte, []*big.Int, bool) {
 	if !ok {
 		return nil, nil, false
 	}
+	if uint64(mpiCount)*4 > uint64(len(current)) {
+		// every MPI takes at least its 4-byte length: do not allocate for a count the data cannot hold
+		return nil, nil, false
+	}
 	result := make([]*big.Int, int(mpiCount))
 	for i := 0; i < int(mpiCount); i++ {
 		current, result[i], ok = ExtractMPI(current)
